@@ -120,6 +120,20 @@ CLAIMED["C02"] = dict(
     technique="TLA+ specification of validity + independent fixed point; result validation by TLC",
 )
 
+CLAIMED["C17"] = dict(
+    category="fault_enumeration",
+    text="Every prefix length k of the expansion sequence is reached with a scripted clock (single-packet slices; the time limit "
+         "placed right after the k-th packet), for each rule-database flavour and two continuations. At k the searcher is pickled "
+         "and restored; Resume.tla (product construction) demands restored == original and that both copies, given the same "
+         "further calls, expand the same work, build the same classes/labels/emptiness/rules/verified set and give the same "
+         "answers and enumeration; the interrupted original's queue traffic must be a behaviour of ClassQueue.tla with no handed-out "
+         "packet lost, and the specification finally returned is judged by SpecValid/WordUniverse (C01/C02). TLC judges all traces.",
+    design_ref="DESIGN.md 3/C17",
+    note="Trusted: TLC, the scripted clock (replaces the time module inside comb_spec_searcher.comb_spec_searcher), pickle. Identity "
+         "of returned rules is not demanded across a pickle, only validity and counts.",
+    technique="crash-point enumeration with a scripted clock; TLA+ product-construction clauses; trace validation by TLC",
+)
+
 NOT_YET = {}
 
 ALL = ["C%02d" % i for i in range(1, 21)]
